@@ -99,6 +99,9 @@ def gen_cases(tier, seed, env_text):
     add("singles/wide dicts 0..12 keys (exhaustive)", ([v] for v in wide), [0, 1, 2, 3, 10, 12, 200])
     add("singles/tiny2 depth-2 (exhaustive)", ([v] for v in tiny2), [0, 1, 2, 3])
     add("singles/recs: containers of two overlapping dicts (exhaustive)", ([v] for v in recs), [0, 1, 2, 3])
+    # class objects of typing's special forms passed around as values (a registry of protocol classes, `Generic` as a marker)
+    special = [absmodel.T("classobj", n) for n in ("typing.Generic", "typing.Protocol", "mtfx.shapes.A")]
+    add("class objects of typing special forms as values", [[v] for v in special] + [[special[0], special[2]], [special[1], full1[0]]], [0, 3])
     # finite values that contain themselves (inference must terminate without error on them too)
     cyc = [absmodel.T("cyc", n) for n in ("list", "dict", "list_in_tuple")]
     add("values that contain themselves", [[v] for v in cyc] + [[cyc[0], full1[0]]], [0, 3])
@@ -217,7 +220,9 @@ def main(pid, tier, seed, replay=None):
                    "value_kinds": sorted(set().union(*[kinds_in(x) for x in rec["vals"]])),
                    "n_values": len(rec["vals"]),
                    "errs": sorted({r["err"] for r in rec["runs"]} - {"NONE"})}
-            if "cyc" in vio["value_kinds"]:
+            if any(x["k"] == "classobj" and x["n"] in ("typing.Generic", "typing.Protocol") for x in rec["vals"]):
+                vio = {"clause": clause, "typing_special_form_class_object": True, "errs": vio["errs"]}
+            if "cyc" in vio.get("value_kinds", []):
                 vio = {"clause": clause, "self_containing_value": True, "errs": vio["errs"]}
             c = case_by_tid[v["tid"]]
             if clause == "Tight":
